@@ -243,6 +243,15 @@ def make_ecdsa(rng, clsmap):
       groups[slot] = sigs
     elif c in ('msbA', 'msbB', 'msbC'):
       groups[slot] = gen.msb_biased_sigs(rng, slot + '-', 'secp256r1', 8, 64)
+    elif c == 'u2fA':
+      # the Cr50 U2F flaw: every byte of the nonce repeated four times; two signatures suffice
+      from pv import drive_C08
+      rc = nc['secp256r1'][2]
+      d = rng.randrange(2 ** 200, rc.n)
+      sigs = [gen.ecdsa_sig(rng, '%s-%d' % (slot, i), 'secp256r1', d, k, 'u2f') for i, k in enumerate(drive_C08.nonce_gen('u2f', rc, 0, rng, 3))]
+      for sg in sigs:
+        sg.meta['crit'] = dict({x: 'may' for x in gen.ECDSA_CHECKS}, CheckCr50U2f='must', CheckIssuerKey='mustnot')
+      groups[slot] = sigs
     elif c == 'msb384':
       groups[slot] = gen.msb_biased_sigs(rng, slot + '-', 'secp384r1', 14, 64)
     elif c == 'msbweak':
